@@ -302,3 +302,24 @@ Definition group_checks (m : mode) (nreq nuniq : nat) (top : list tree) : res (l
   let* b := tag_level_issues top in
   let* c := check_for_duplicate_groups m top in
   Ok (a ++ b ++ c ++ validate_duration_tags top).
+
+(* ---------------------------------------------------------------- sessions
+   The rows of a file are validated one after the other by ONE GroupValidator
+   built on ONE schema object.  What the group rules read of that object is
+   fixed when it is built (self._hed_schema: the variant of the code and the
+   schema's required / unique prefixes); no method of GroupValidator, HedGroup
+   or HedTag modelled above assigns to it.  A step returns the object as it
+   found it together with the issues of the row. *)
+Record session := mkSession { s_mode : mode; s_nreq : nat; s_nuniq : nat }.
+
+Definition session_step (s : session) (row : list tree) : session * res (list kind) :=
+  (s, group_checks (s_mode s) (s_nreq s) (s_nuniq s) row).
+
+Fixpoint session_run (s : session) (rows : list (list tree)) : session * list (res (list kind)) :=
+  match rows with
+  | [] => (s, [])
+  | r :: rows' =>
+      let (s1, v) := session_step s r in
+      let (s2, vs) := session_run s1 rows' in
+      (s2, v :: vs)
+  end.
